@@ -555,6 +555,12 @@ func rulesC16(c *Ctx) {
 			}
 		}
 		okZero = okZero && nz >= 1
+		// ... and what is returned is that value: every return of setSchema names the zero variable as its first result
+		for i, r := range ss.Returns() {
+			if len(r.Results) == 2 {
+				c.Check(ss.ObjOf(r.Results[0]) == zres, "setSchema:returns-the-zero-value#"+itoa(i), ss, r, "the first result is the zero variable (a literal nil on some path loses the replacement for a nil *Out)")
+			}
+		}
 		c.Check(okZero, "setSchema:zero-before-any-return", ss, nil, "the pointer-indirection test (which also fixes the zero value handed back to toolForErr) dominates every return of setSchema")
 		// the cache accessors: reader and writer of each map agree
 		byType, bySchema := c.Field(pM, "SchemaCache", "byType"), c.Field(pM, "SchemaCache", "bySchema")
